@@ -72,6 +72,11 @@ func (rp *RuleParser) ParseVariables(vars string) error {
 			if err != nil {
 				return err
 			}
+			if isNegation && curr == 1 && len(curKey) == 0 {
+				// "!ARGS:" followed by another target: an exclusion without a key
+				// would silently remove the whole collection
+				return fmt.Errorf("empty selector in variable negation: %q", "!"+string(curVar)+":")
+			}
 			if curr == 1 && !v.CanBeSelected() {
 				return fmt.Errorf("attempting to select a value inside a non-selectable collection: %s", string(curVar))
 			}
